@@ -27,14 +27,14 @@ Disp3(a, ax, t) == LET r == Rots3[a] IN
     [M |-> IF ax = 1 THEN RzH(r[1], r[2], r[3]) ELSE IF ax = 2 THEN Rx(r[1], r[2], r[3]) ELSE Ry(r[1], r[2], r[3]),
      H |-> r[3], t |-> Shifts3[t], tden |-> 8]
 Cases ==
-    {[m |-> "align", op |-> "curve", ref |-> rf[1], samples |-> rf[2], D |-> Disp2(a, t), guess |-> g, basin |-> a < 6]
-        : rf \in {<<Ell, EllS>>, <<Notch, NotchS>>}, a \in 1..NRot, t \in 1..NShift, g \in {0, 1}} \cup
-    {[m |-> "align", op |-> "mesh", vpos |-> BoxV, faces |-> BoxF, samples |-> BoxS, D |-> Disp3(a, ax, t), mode |-> md, guess |-> 0, basin |-> a < 4]
-        : a \in 1..(IF NRot > 4 THEN 4 ELSE NRot), ax \in 1..3, t \in 1..NShift, md \in {"plane"}} \cup
+    {[m |-> "align", op |-> "curve", ref |-> rf[1], samples |-> rf[2], off |-> off, D |-> Disp2(a, t), guess |-> g, basin |-> a < 6]
+        : rf \in {<<Ell, EllS>>, <<Notch, NotchS>>}, a \in 1..NRot, t \in 1..NShift, g \in {0, 1, 2}, off \in {<<0,0,0>>, <<150,-90,0>>}} \cup
+    {[m |-> "align", op |-> "mesh", vpos |-> BoxV, faces |-> BoxF, samples |-> BoxS, off |-> off, D |-> Disp3(a, ax, t), mode |-> md, guess |-> 0, basin |-> a < 4]
+        : a \in 1..(IF NRot > 4 THEN 4 ELSE NRot), ax \in 1..3, t \in 1..NShift, md \in {"plane"}, off \in {<<0,0,0>>, <<150,-90,60>>}} \cup
     \* point mode: |p - c| is not differentiable where it is exactly 0 (rows vanish and the problem is rank deficient), so
     \* displacements that leave whole faces at distance 0 (no shift) are outside the basin clause for this mode
-    {[m |-> "align", op |-> "mesh", vpos |-> BoxV, faces |-> BoxF, samples |-> BoxS, D |-> Disp3(a, ax, t), mode |-> "point", guess |-> 0, basin |-> a < 4]
-        : a \in 1..(IF NRot > 4 THEN 4 ELSE NRot), ax \in 1..3, t \in 2..NShift}
+    {[m |-> "align", op |-> "mesh", vpos |-> BoxV, faces |-> BoxF, samples |-> BoxS, off |-> off, D |-> Disp3(a, ax, t), mode |-> "point", guess |-> 0, basin |-> a < 4]
+        : a \in 1..(IF NRot > 4 THEN 4 ELSE NRot), ax \in 1..3, t \in 2..NShift, off \in {<<0,0,0>>, <<150,-90,60>>}}
 Init == case \in Cases
 Next == UNCHANGED case
 Spec == Init /\ [][Next]_case
